@@ -426,9 +426,10 @@ class Preempter(object):
     """decides, at the sync points of the listed driver functions, whether the other thread's action runs
     now: one solver flag per eligible sync point, at most `budget` pre-emptions per path, never nested"""
 
-    def __init__(self, V, functions, action, budget=1, phases=('acquire', 'release'), only_unlocked=False):
+    def __init__(self, V, functions, action, budget=1, phases=('acquire', 'release'), only_unlocked=False, enabled=None):
         self.V, self.functions, self.action, self.budget, self.phases = V, (set(functions) if functions is not None else None), action, budget, phases
         self.only_unlocked = only_unlocked
+        self.enabled = enabled
         SchedLock.HELD[0] = 0
         self.count = 0
         self.used = 0
@@ -442,6 +443,8 @@ class Preempter(object):
             return
         if self.only_unlocked and SchedLock.HELD[0] > 0:
             return              # the pre-empted thread still holds a lock: another thread could be blocked on it
+        if self.enabled is not None and not self.enabled():
+            return              # the other thread has nothing to do at this point
         k = self.count
         self.count += 1
         if self.V.flag('preempt_%d_%s_%s_%s' % (k, function, name, phase)):
